@@ -924,7 +924,7 @@ def case_size(c):
 def verdict(c, o):
     """the property on one observation; returns None or a description of the failure"""
     if o.get("crash"):
-        se = (o.get("stderr") or "").strip().splitlines()
+        se = [l for l in (o.get("stderr") or "").strip().splitlines() if not l.startswith("note:")]
         return "the worker process died on this input (%s%s)" % (o["crash"], ": " + se[-1][:160] if se else "")
     if o.get("panic") and "class" not in o:
         return "harness error: %s" % o.get("msg")
@@ -1010,7 +1010,7 @@ def check(run):
     failures.sort(key=lambda iv: (cases[iv[0]]["_n"], iv[0]))
     seen_kinds = set()
     for i, v in failures:
-        kind = (cases[i]["op"], v.split(":")[0][:40])
+        kind = (cases[i]["op"], v[:14])
         if kind in seen_kinds:
             continue
         seen_kinds.add(kind)
